@@ -8,6 +8,12 @@ ROOT = os.path.dirname(os.path.dirname(os.path.abspath(__file__)))
 def main():
     with open(os.path.join(ROOT, "props", "registry.json")) as f:
         reg = json.load(f)
+    import glob
+    for p in sorted(glob.glob(os.path.join(ROOT, "props", "registry.d", "*.json"))):
+        with open(p) as f:
+            frag = json.load(f)
+        reg["claimed"].update(frag.get("claimed", {}))
+        reg["not_applicable"].update(frag.get("not_applicable", {}))
     with open(os.path.join(ROOT, "properties.jsonl")) as f:
         all_ids = [json.loads(l)["id"] for l in f if l.strip()]
     checks = []
